@@ -16,7 +16,7 @@ type mixOpts struct {
 	// message kinds (weights)
 	wSSO, wCallback, wSLO, wAttrQ, wMeta, wCert, wReady, wHealthz, wRaw int
 	// scheduler / environment steps (weights)
-	wResume, wFinish, wComplete, wUncomplete, wAdvance, wRestart, wDelReq, wRotate, wRotateMeta, wRereg, wDelSP, wPair, wUnhealthy, wCancel int
+	wResume, wFinish, wComplete, wUncomplete, wAdvance, wRestart, wDelReq, wRotate, wRotateMeta, wRereg, wDelSP, wPair, wUnhealthy, wCancel, wTear int
 
 	devPct        int // a protocol message deviates from conformance in one listed way
 	tamperPct     int // a protocol message is manipulated in flight
@@ -123,7 +123,7 @@ func (g G) planMix(prop string, o *mixOpts) *Plan {
 	}
 	nsp := len(p.World.SPs)
 	weights := []int{o.wSSO, o.wCallback, o.wSLO, o.wAttrQ, o.wMeta, o.wCert, o.wReady, o.wHealthz, o.wRaw,
-		o.wResume, o.wFinish, o.wComplete, o.wUncomplete, o.wAdvance, o.wRestart, o.wDelReq, o.wRotate, o.wRotateMeta, o.wRereg, o.wDelSP, o.wPair, o.wUnhealthy, o.wCancel}
+		o.wResume, o.wFinish, o.wComplete, o.wUncomplete, o.wAdvance, o.wRestart, o.wDelReq, o.wRotate, o.wRotateMeta, o.wRereg, o.wDelSP, o.wPair, o.wUnhealthy, o.wCancel, o.wTear}
 	sent := 0
 	for i := 0; i < n; i++ {
 		lab := fmt.Sprintf("s%d", i)
@@ -259,6 +259,8 @@ func (g G) planMix(prop string, o *mixOpts) *Plan {
 			p.Steps = append(p.Steps, Step{K: "mutate", Mut: "unhealthy"})
 		case 22:
 			p.Steps = append(p.Steps, Step{K: "cancel", Pick: g.intn(lab+".pick", 8)})
+		case 23:
+			p.Steps = append(p.Steps, Step{K: "mutate", Mut: "tearKey"})
 		}
 	}
 	p.Recovery = g.chance("recovery", o.recoveryPct)
